@@ -4,3 +4,4 @@ CONSTANTS
   MaxLen = 3
   MaxLen2 = 2
 INVARIANT RoundTrip
+INVARIANT RunBlind
